@@ -14,8 +14,9 @@
    Tick and LoopStep are silent.  The deadline and the definition set are taken from the event: NotEarly, OnlyAssigned, AtMostOnce
    and Complete judge them.  The answers of the beacon client are taken from the event as well, but must be what the
    scripted node would answer (RespOK: a caching layer may drop unsolicited entries) -- a self-check of the driver.
-   A Trigger event that no spawned goroutine explains is accepted as a stray trigger and then judged by the invariants
-   (so the verdict names the property) and finally by NoStray. *)
+   A Delay / Trigger event that no spawned goroutine explains is accepted as a stray trigger and then judged by the
+   invariants (so the verdict names the property) and finally by NoStray; a goroutine of the spec that never shows up
+   before the next clock move is reported as Complete / SlotSubCalled (TLost). *)
 EXTENDS Scheduler, TraceCommon
 VARIABLE stray
 tvars == <<vars, stray, tr, l>>
@@ -54,8 +55,21 @@ TDelay == /\ IsEvent("Delay") /\ UNCHANGED stray
 DefOf(x) == IF x.k = "sync" THEN [v |-> x.dv, tag |-> x.tag] ELSE [v |-> x.dv, slot |-> x.slot, tag |-> x.tag]
 DefsOf(e) == LET D == SeqToSet(e.defs) IN [v \in {x.v : x \in D} |-> DefOf(CHOOSE x \in D : x.v = v)]
 Match(g) == g.kind = "duty" /\ g.stage = "fire" /\ g.slot = Ev.slot /\ g.type = Ev.type
-TTrigger == /\ IsEvent("Trigger") /\ UNCHANGED stray
-            /\ \E g \in gor : Match(g) /\ Fire(g, DefsOf(Ev))
+TTrigger == /\ IsEvent("Trigger")
+            /\ \E g \in gor : Match(g) /\ Fire(g, DefsOf(Ev)) /\ stray' = (stray \/ g.id < 0)
+\* a Delay event that no spawned goroutine explains: a phantom goroutine (negative id) carries the deadline to the
+\* Trigger event that follows, where the invariants judge the definitions
+TStrayDelay == /\ IsEvent("Delay") /\ pc # "loop" /\ UNCHANGED stray
+               /\ ~\E g \in gor : g.kind = "duty" /\ g.stage = "delay" /\ g.slot = Ev.slot /\ g.type = Ev.type
+               /\ gor' = gor \cup {[id |-> 0 - l, kind |-> "duty", slot |-> Ev.slot, type |-> Ev.type, defs |-> Empty,
+                                     stage |-> "fire", dl |-> Ev.dl]}
+               /\ UNCHANGED <<truth, now, tnext, pc, slot, i, res, resolvedEpoch, duties, byEpoch, gid, triggered, sched,
+                              resolvedAt, elig, eligAll>>
+\* the clock moves (or the run ends) although a spawned goroutine never showed up in the trace: the duty was not
+\* triggered / the slot subscriber was not called
+TLost == /\ l <= TLen /\ Ev.ev \in {"Advance", "End"} /\ pc = "idle" /\ gor # {}
+         /\ IF \E g \in gor : g.kind = "duty" THEN InvFail("Complete") ELSE InvFail("SlotSubCalled")
+         /\ UNCHANGED tvars
 TStray == /\ IsEvent("Trigger") /\ pc # "loop" /\ ~\E g \in gor : g.kind = "duty" /\ g.slot = Ev.slot /\ g.type = Ev.type
           /\ triggered' = Append(triggered, [slot |-> Ev.slot, type |-> Ev.type, defs |-> DefsOf(Ev),
                                              dl |-> IF HasOffset(Ev.type) THEN Start(Ev.slot) + Offset(Ev.type) ELSE None])
@@ -64,7 +78,7 @@ TStray == /\ IsEvent("Trigger") /\ pc # "loop" /\ ~\E g \in gor : g.kind = "duty
 TAdvance == IsEvent("Advance") /\ Advance(Ev.to) /\ UNCHANGED stray
 TEnd == IsEvent("End") /\ Quiescent /\ UNCHANGED <<vars, stray>>
 TLoop == LoopStep /\ Silent /\ UNCHANGED stray
-TraceNext == TReset \/ TTick \/ TSched \/ TSlotSub \/ TCallVals \/ TCallDuties \/ TDelay \/ TTrigger \/ TStray \/ TAdvance \/ TEnd \/ TLoop
+TraceNext == TReset \/ TTick \/ TSched \/ TSlotSub \/ TCallVals \/ TCallDuties \/ TDelay \/ TStrayDelay \/ TTrigger \/ TStray \/ TLost \/ TAdvance \/ TEnd \/ TLoop
 TraceSpec == TraceInit /\ [][TraceNext]_tvars
 Mark == /\ CheckInv("TruthSane", TruthSane)
         /\ CheckInv("AtMostOnce", AtMostOnce) /\ CheckInv("OnlyAssigned", OnlyAssigned)
